@@ -5,7 +5,7 @@
    post = solve_t_after), any selection (None = default = insertion order), any options, any state. *)
 From Coq Require Import ZArith List Bool PrimFloat.
 Import ListNotations.
-Require Import PyBase Solver SolverFacts SolverF SolveAll SolveAllFacts Linker LinkerFacts LinkerFacts2 LinkerFacts3 LinkerFacts4 LinkerRange LinkerFacts5 LinkerF LinkerExamples LinkerExamples2.
+Require Import PyBase Solver SolverFacts SolverF SolveAll SolveAllFacts Linker LinkerFacts LinkerFacts2 LinkerFacts3 LinkerFacts4 LinkerRange LinkerFacts5 LinkerFacts6 LinkerF LinkerExamples LinkerExamples2.
 Open Scope Z_scope.
 
 (* ---------------------------------------------------------------- what NO path of solve_t changes *)
@@ -16,7 +16,7 @@ Theorem C08_solve_t_preserves_shape :
          (sev : sid -> hook num) (pre ebefore eafter post : lhook num)
          (sel : option (list sid)) (o : opts num) (t : Z) (s : lstate num),
     srel num (sel_ids num sel s) s (fst (linker_solve_t_M num sub absf ltb zero sev pre ebefore eafter post sel o t s)).
-Proof. exact solve_t_preserves_shape. Qed.
+Proof. exact solve_t_preserves_shape_M. Qed.
 
 (* unselected submodels are never evaluated — on every path, exceptions included *)
 Theorem C08_unselected_never_evaluated :
@@ -26,7 +26,7 @@ Theorem C08_unselected_never_evaluated :
     selected (sel_ids num sel s) id = false ->
     exists evs, l_log (fst (linker_solve_t_M num sub absf ltb zero sev pre ebefore eafter post sel o t s)) = l_log s ++ evs /\
                 forall t' k, ~ In (LSub id t' k) evs.
-Proof. exact unselected_never_evaluated. Qed.
+Proof. exact unselected_never_evaluated_M. Qed.
 
 (* ... nor re-stamped: status series, iteration counters, descriptor, private log exactly as they were (only a hook
    may have written values) — on every path *)
@@ -37,7 +37,7 @@ Theorem C08_unselected_not_restamped :
     nth_error (l_subs s) i = Some (id, c) -> selected (sel_ids num sel s) id = false ->
     exists v, nth_error (l_subs (fst (linker_solve_t_M num sub absf ltb zero sev pre ebefore eafter post sel o t s))) i
               = Some (id, with_cvals num c v).
-Proof. exact unselected_not_restamped. Qed.
+Proof. exact unselected_not_restamped_M. Qed.
 
 (* ... and untouched altogether when no hook writes its values *)
 Theorem C08_unselected_untouched :
@@ -47,7 +47,7 @@ Theorem C08_unselected_untouched :
     nth_error (l_subs s) i = Some (id, c) -> selected (sel_ids num sel s) id = false ->
     hook_keeps num i pre -> hook_keeps num i ebefore -> hook_keeps num i eafter -> hook_keeps num i post ->
     nth_error (l_subs (fst (linker_solve_t_M num sub absf ltb zero sev pre ebefore eafter post sel o t s))) i = Some (id, c).
-Proof. exact unselected_untouched. Qed.
+Proof. exact unselected_untouched_M. Qed.
 
 (* an unknown submodel id raises KeyError before any hook runs; exactly the counters of the ids listed BEFORE it
    have been zeroed by then (subs1), nothing else has changed *)
@@ -56,13 +56,15 @@ Theorem C08_unknown_id_KeyError :
          (sev : sid -> hook num) (pre ebefore eafter post : lhook num)
          (sel : option (list sid)) (o : opts num) (t : Z) (s : lstate num)
          (before : list sid) (bad : sid) (after : list sid) (cur : list (list num)) (subs1 : list (sid * comp num)),
+    min_iter o <= max_iter o ->                        (* both guards passed: not rejected with ValueError ... *)
+    linker_infeasible (c_desc (l_core s)) (length (status (c_st (l_core s)))) t = false ->     (* ... nor with IndexError *)
     sel_ids num sel s = before ++ bad :: after ->
     find_sub num bad (l_subs s) = None ->
     get_check_values num zero (sel_ids num sel s) t s = inl cur ->
     zero_iters num before t (l_subs s) = (subs1, None) ->
     linker_solve_t_M num sub absf ltb zero sev pre ebefore eafter post sel o t s
     = (mkL (l_core s) subs1 (l_log s), LRaise (LExn KeyError)).
-Proof. exact unknown_id_KeyError. Qed.
+Proof. exact unknown_id_KeyError_M. Qed.
 
 (* ---------------------------------------------------------------- the call when no hook / submodel raises *)
 (* the complete equation: least converging iteration via find_first over lconvk, then the final bookkeeping *)
@@ -71,6 +73,8 @@ Theorem C08_solve_t_quiet_spec :
          (sev : sid -> hook num) (pre ebefore eafter post : lhook num)
          (sel : option (list sid)) (o : opts num) (t : Z) (s : lstate num)
          (c0 : list (list num)) (subs1 : list (sid * comp num)) (s1 : lstate num),
+    min_iter o <= max_iter o ->                        (* both guards passed: not rejected with ValueError ... *)
+    linker_infeasible (c_desc (l_core s)) (length (status (c_st (l_core s)))) t = false ->     (* ... nor with IndexError *)
     let ids := sel_ids num sel s in
     let N := Z.to_nat (max_iter o) in
     get_check_values num zero ids t s = inl c0 ->
@@ -86,7 +90,7 @@ Theorem C08_solve_t_quiet_spec :
                     end
        | None => LLDone (lst_after num sev ebefore eafter ids o t s1 N) Failed N
        end).
-Proof. exact solve_t_quiet_spec. Qed.
+Proof. exact solve_t_quiet_spec_M. Qed.
 
 (* order of events: pre-hook once; per iteration Before_k, every listed submodel once in the order listed, After_k;
    post-hook once, right after the converging iteration, and only then *)
@@ -95,6 +99,8 @@ Theorem C08_linker_event_order :
          (sev : sid -> hook num) (pre ebefore eafter post : lhook num)
          (sel : option (list sid)) (o : opts num) (t : Z) (s : lstate num)
          (c0 : list (list num)) (subs1 : list (sid * comp num)) (s1 : lstate num),
+    min_iter o <= max_iter o ->                        (* both guards passed: not rejected with ValueError ... *)
+    linker_infeasible (c_desc (l_core s)) (length (status (c_st (l_core s)))) t = false ->     (* ... nor with IndexError *)
     let ids := sel_ids num sel s in
     let N := Z.to_nat (max_iter o) in
     get_check_values num zero ids t s = inl c0 ->
@@ -107,7 +113,7 @@ Theorem C08_linker_event_order :
     | Some k0 => flat_map (iter_events ids t) (seq 1 k0) ++ [LPost t k0]
     | None => flat_map (iter_events ids t) (seq 1 N)
     end.
-Proof. exact linker_event_order. Qed.
+Proof. exact linker_event_order_M. Qed.
 
 (* stops at the LEAST k in [max 1 min_iter, max_iter] at which every check variable of the linker and of every selected
    submodel moved by strictly less than tol (lconvk over check_vec): True, '.', k on the linker and on every selected
@@ -118,6 +124,8 @@ Theorem C08_linker_converges_at_least_k :
          (sev : sid -> hook num) (pre ebefore eafter post : lhook num)
          (sel : option (list sid)) (o : opts num) (t : Z) (p : nat) (s : lstate num)
          (subs1 : list (sid * comp num)) (s1 : lstate num) (k0 : nat),
+    min_iter o <= max_iter o ->                        (* both guards passed: not rejected with ValueError ... *)
+    linker_infeasible (c_desc (l_core s)) (length (status (c_st (l_core s)))) t = false ->     (* ... nor with IndexError *)
     let ids := sel_ids num sel s in
     let N := Z.to_nat (max_iter o) in
     let c0 := check_vec num zero ids p s in
@@ -140,7 +148,7 @@ Theorem C08_linker_converges_at_least_k :
        exists c', find_sub num id (l_subs (fst r)) = Some c' /\
          status (c_st c') = (if selected ids id then upd p Solved (status (c_st c)) else status (c_st c)) /\
          iters (c_st c') = (if selected ids id then upd p (Z.of_nat (k0 * cnt id ids)) (iters (c_st c)) else iters (c_st c))).
-Proof. exact linker_converges_at_least_k. Qed.
+Proof. exact linker_converges_at_least_k_M. Qed.
 
 (* no such k (incl. max_iter <= 0 and min_iter > max_iter): max_iter iterations, no post-hook, 'F', max_iter;
    NonConvergenceError iff failures = 'raise', else False *)
@@ -149,6 +157,8 @@ Theorem C08_linker_fails_when_no_k :
          (sev : sid -> hook num) (pre ebefore eafter post : lhook num)
          (sel : option (list sid)) (o : opts num) (t : Z) (p : nat) (s : lstate num)
          (subs1 : list (sid * comp num)) (s1 : lstate num),
+    min_iter o <= max_iter o ->                        (* both guards passed: not rejected with ValueError ... *)
+    linker_infeasible (c_desc (l_core s)) (length (status (c_st (l_core s)))) t = false ->     (* ... nor with IndexError *)
     let ids := sel_ids num sel s in
     let N := Z.to_nat (max_iter o) in
     let c0 := check_vec num zero ids p s in
@@ -169,7 +179,7 @@ Theorem C08_linker_fails_when_no_k :
        exists c', find_sub num id (l_subs (fst r)) = Some c' /\
          status (c_st c') = (if selected ids id then upd p Failed (status (c_st c)) else status (c_st c)) /\
          iters (c_st c') = (if selected ids id then upd p (Z.of_nat (N * cnt id ids)) (iters (c_st c)) else iters (c_st c))).
-Proof. exact linker_fails_when_no_k. Qed.
+Proof. exact linker_fails_when_no_k_M. Qed.
 
 (* the same status on the linker and on every selected submodel; a selected submodel's iterations[t] = the linker's
    (times the number of times it is listed; equal for a duplicate-free selection); status is '.' or 'F', and the call
@@ -179,6 +189,8 @@ Theorem C08_linker_status_stamped :
          (sev : sid -> hook num) (pre ebefore eafter post : lhook num)
          (sel : option (list sid)) (o : opts num) (t : Z) (p : nat) (s : lstate num)
          (subs1 : list (sid * comp num)) (s1 : lstate num),
+    min_iter o <= max_iter o ->                        (* both guards passed: not rejected with ValueError ... *)
+    linker_infeasible (c_desc (l_core s)) (length (status (c_st (l_core s)))) t = false ->     (* ... nor with IndexError *)
     let ids := sel_ids num sel s in
     let N := Z.to_nat (max_iter o) in
     wf num t p s ->
@@ -196,7 +208,7 @@ Theorem C08_linker_status_stamped :
           nth_error (status (c_st c')) p = Some x /\
           nth_error (iters (c_st c')) p = Some (Z.of_nat (k * cnt id ids)) /\
           (NoDup ids -> nth_error (iters (c_st c')) p = nth_error (iters (c_st (l_core (fst r)))) p).
-Proof. exact linker_status_stamped. Qed.
+Proof. exact linker_status_stamped_M. Qed.
 
 (* max_iter <= 0 (holds since fix b545cbb): no iteration, 'F', 0 iterations, pre-hook only *)
 Theorem C08_linker_maxiter0 :
@@ -204,6 +216,8 @@ Theorem C08_linker_maxiter0 :
          (sev : sid -> hook num) (pre ebefore eafter post : lhook num)
          (sel : option (list sid)) (o : opts num) (t : Z) (p : nat) (s : lstate num)
          (subs1 : list (sid * comp num)) (s1 : lstate num),
+    min_iter o <= max_iter o ->                        (* both guards passed: not rejected with ValueError ... *)
+    linker_infeasible (c_desc (l_core s)) (length (status (c_st (l_core s)))) t = false ->     (* ... nor with IndexError *)
     let ids := sel_ids num sel s in
     max_iter o <= 0 -> wf num t p s ->
     zero_iters num ids t (l_subs s) = (subs1, None) ->
@@ -217,23 +231,56 @@ Theorem C08_linker_maxiter0 :
        exists c', find_sub num id (l_subs (fst r)) = Some c' /\
          status (c_st c') = (if selected ids id then upd p Failed (status (c_st c)) else status (c_st c)) /\
          iters (c_st c') = (if selected ids id then upd p 0 (iters (c_st c)) else iters (c_st c))).
-Proof. exact linker_maxiter0. Qed.
+Proof. exact linker_maxiter0_M. Qed.
 
-(* min_iter > max_iter: solve_t has no guard — the period is never declared solved *)
-Theorem C08_linker_min_gt_max_never_solved :
+(* min_iter > max_iter (fix 97423a0): ValueError first, nothing changed — whatever t, the selection and the state *)
+Theorem C08_linker_solve_t_min_gt_max_rejected :
   forall (num : Type) (sub : num -> num -> num) (absf : num -> num) (ltb : num -> num -> bool) (zero : num)
          (sev : sid -> hook num) (pre ebefore eafter post : lhook num)
-         (sel : option (list sid)) (o : opts num) (t : Z) (p : nat) (s : lstate num)
-         (subs1 : list (sid * comp num)) (s1 : lstate num),
-    let ids := sel_ids num sel s in
-    max_iter o < min_iter o -> wf num t p s ->
-    zero_iters num ids t (l_subs s) = (subs1, None) ->
-    run_hook num pre ids o t 0%nat (LPre t) (mkL (l_core s) subs1 (l_log s)) = (s1, None) ->
-    quiet_upto num sev ebefore eafter ids o t s1 (Z.to_nat (max_iter o)) ->
-    let r := linker_solve_t_M num sub absf ltb zero sev pre ebefore eafter post sel o t s in
-    snd r = (if fail_raise o then LRaise (LExn NonConvergenceError) else LRet false) /\
-    status (c_st (l_core (fst r))) = upd p Failed (status (c_st (l_core s))).
-Proof. exact linker_min_gt_max_never_solved. Qed.
+         (sel : option (list sid)) (o : opts num) (t : Z) (s : lstate num),
+    max_iter o < min_iter o ->
+    linker_solve_t_M num sub absf ltb zero sev pre ebefore eafter post sel o t s = (s, LRaise (LExn ValueError)).
+Proof. exact linker_solve_t_min_gt_max. Qed.
+
+(* a period without room for the linker's lags / leads (fix a0fbb5c): IndexError, nothing changed — before the selection
+   is validated (an unknown id does not make it KeyError) and before any counter is zeroed.  The linker's lags / leads
+   are its instance attributes (the lags / leads of the core's descriptor; __init__ sets them to the maxima over the
+   submodels); the guard as coded: t_check = t (+ len(span) if negative), 0 <= t_check < lags or
+   len(span) - leads <= t_check < len(span) *)
+Theorem C08_linker_solve_t_infeasible_rejected :
+  forall (num : Type) (sub : num -> num -> num) (absf : num -> num) (ltb : num -> num -> bool) (zero : num)
+         (sev : sid -> hook num) (pre ebefore eafter post : lhook num)
+         (sel : option (list sid)) (o : opts num) (t : Z) (s : lstate num),
+    min_iter o <= max_iter o ->
+    linker_infeasible (c_desc (l_core s)) (length (status (c_st (l_core s)))) t = true ->
+    linker_solve_t_M num sub absf ltb zero sev pre ebefore eafter post sel o t s = (s, LRaise (LExn IndexError)).
+Proof. exact linker_solve_t_infeasible. Qed.
+
+Theorem C08_linker_solve_t_infeasible_position_rejected :
+  forall (num : Type) (sub : num -> num -> num) (absf : num -> num) (ltb : num -> num -> bool) (zero : num)
+         (sev : sid -> hook num) (pre ebefore eafter post : lhook num)
+         (sel : option (list sid)) (o : opts num) (t : Z) (p : nat) (s : lstate num),
+    min_iter o <= max_iter o -> py_pos (length (status (c_st (l_core s)))) t = Some p ->
+    (p < lags (c_desc (l_core s)) \/ length (status (c_st (l_core s))) <= p + leads (c_desc (l_core s)))%nat ->
+    linker_solve_t_M num sub absf ltb zero sev pre ebefore eafter post sel o t s = (s, LRaise (LExn IndexError)).
+Proof. exact linker_solve_t_infeasible_pos. Qed.
+
+(* what the guard buys: when the linker's lags / leads dominate every submodel's (as __init__ makes them), a period that
+   passes the guard has room for EVERY submodel's own lags and leads — no evaluated equation reads a wrapped-around index *)
+Theorem C08_guard_passed_fits_every_submodel :
+  forall (num : Type) (s : lstate num) (t : Z) (p : nat),
+    let n := length (status (c_st (l_core s))) in
+    py_pos n t = Some p ->
+    linker_infeasible (c_desc (l_core s)) n t = false ->
+    (forall ic, In ic (l_subs s) -> (lags (c_desc (snd ic)) <= lags (c_desc (l_core s)))%nat /\
+                                    (leads (c_desc (snd ic)) <= leads (c_desc (l_core s)))%nat) ->
+    forall ic, In ic (l_subs s) -> feasible (c_desc (snd ic)) n p = true.
+Proof. exact guard_passed_fits_every_submodel. Qed.
+
+(* for a t inside the span the guard is exactly the negation of Solver.feasible (the test BaseModel.solve_t makes) *)
+Theorem C08_linker_guard_is_feasibility :
+  forall (d : mdesc) (n : nat) (t : Z) (p : nat), py_pos n t = Some p -> linker_infeasible d n t = negb (feasible d n p).
+Proof. exact linker_infeasible_pos. Qed.
 
 (* ---------------------------------------------------------------- offset (finding #8) *)
 (* what does hold: offset is never read — every value of it gives the same run *)
@@ -363,6 +410,8 @@ Theorem C08_solved_iff_all_moved_lt_tol :
          (sev : sid -> hook num) (pre ebefore eafter post : lhook num)
          (sel : option (list sid)) (o : opts num) (t : Z) (p : nat) (s : lstate num)
          (subs1 : list (sid * comp num)) (s1 : lstate num),
+    min_iter o <= max_iter o ->                        (* both guards passed: not rejected with ValueError ... *)
+    linker_infeasible (c_desc (l_core s)) (length (status (c_st (l_core s)))) t = false ->     (* ... nor with IndexError *)
     let ids := sel_ids num sel s in
     let N := Z.to_nat (max_iter o) in
     wf num t p s ->
@@ -387,7 +436,7 @@ Theorem C08_solved_iff_all_moved_lt_tol :
        snd r = (if fail_raise o then LRaise (LExn NonConvergenceError) else LRet false) /\
        nth_error (status (c_st (l_core (fst r)))) p = Some Failed /\
        nth_error (iters (c_st (l_core (fst r)))) p = Some (Z.of_nat N)).
-Proof. exact solved_iff_all_moved_lt_tol. Qed.
+Proof. exact solved_iff_all_moved_lt_tol_M. Qed.
 
 (* the vectors compared at iteration k have the same shape: same number of containers, same number of entries each *)
 Theorem C08_check_vectors_keep_shape :
@@ -418,7 +467,7 @@ Theorem C08_solve_t_other_periods_untouched :
     Forall2 (fun a b : sid * comp num => fst a = fst b /\
                keeps st (status (c_st (snd a))) (status (c_st (snd b))) /\
                keeps Z (iters (c_st (snd a))) (iters (c_st (snd b)))) (l_subs s) (l_subs s').
-Proof. exact solve_t_other_periods_untouched. Qed.
+Proof. exact solve_t_other_periods_untouched_M. Qed.
 
 (* ... and on every path of solve() over the positions ps, every position that no member of ps denotes *)
 Theorem C08_solve_other_periods_untouched :
@@ -447,7 +496,7 @@ Theorem C08_user_exception_stamps_nothing :
     status (c_st (l_core s')) = status (c_st (l_core s)) /\
     iters (c_st (l_core s')) = iters (c_st (l_core s)) /\
     Forall2 (fun a b : sid * comp num => fst a = fst b /\ status (c_st (snd b)) = status (c_st (snd a))) (l_subs s) (l_subs s').
-Proof. exact user_exception_stamps_nothing. Qed.
+Proof. exact user_exception_stamps_nothing_M. Qed.
 
 (* on EVERY path every status entry (linker and submodels) is afterwards what it was or ONE value x, x = '.' or 'F':
    the linker never writes 'E' / 'S' and never two different statuses in one call *)
@@ -464,7 +513,7 @@ Theorem C08_solve_t_stamps_only_solved_or_failed :
                  length (status (c_st (snd b))) = length (status (c_st (snd a))) /\
                  forall q, nth_error (status (c_st (snd b))) q = nth_error (status (c_st (snd a))) q \/
                            nth_error (status (c_st (snd b))) q = Some x) (l_subs s) (l_subs s').
-Proof. exact solve_t_stamps_only_solved_or_failed. Qed.
+Proof. exact solve_t_stamps_only_solved_or_failed_M. Qed.
 
 (* errors= / catch_first_error reach a call only as arguments handed down to the hooks and to _evaluate: if those do
    not react to them, every policy and either flag give the same run (the linker has no error policy of its own) *)
@@ -550,7 +599,6 @@ Theorem C08_linker_solve_span_unknown_start :
          (sev : sid -> hook num) (pre ebefore eafter post : lhook num) (L : Type) (locate : L -> locres)
          (lg ld : nat) (span : list L) (x : L) (end_ : option L) (sel : option (list sid)) (o : opts num) (s : lstate num),
     min_iter o <= max_iter o -> span <> [] -> locate x = LFail ->
-    (end_ <> None \/ (ld < length span)%nat) ->
     linker_solve_span_M num sub absf ltb zero sev pre ebefore eafter post L locate lg ld span (Some x) end_ sel o s
     = (s, inl (LExn KeyError)).
 Proof. exact linker_solve_span_unknown_start. Qed.
@@ -558,13 +606,22 @@ Proof. exact linker_solve_span_unknown_start. Qed.
 Theorem C08_linker_solve_span_unknown_end :
   forall (num : Type) (sub : num -> num -> num) (absf : num -> num) (ltb : num -> num -> bool) (zero : num)
          (sev : sid -> hook num) (pre ebefore eafter post : lhook num) (L : Type) (locate : L -> locres)
-         (lg ld : nat) (span : list L) (start : option L) (y : L) (sel : option (list sid)) (o : opts num) (s : lstate num)
-         (st : L),
+         (lg ld : nat) (span : list L) (start : option L) (y : L) (sel : option (list sid)) (o : opts num) (s : lstate num),
     min_iter o <= max_iter o -> span <> [] -> locate y = LFail ->
-    match start with Some x => Some x | None => py_get span (Z.of_nat lg) end = Some st ->
+    match start with None => (lg < length span)%nat | Some x => locate x <> LFail end ->
     linker_solve_span_M num sub absf ltb zero sev pre ebefore eafter post L locate lg ld span start (Some y) sel o s
     = (s, inl (LExn KeyError)).
 Proof. exact linker_solve_span_unknown_end. Qed.
+
+(* default start with lags >= len(span): IndexError, nothing changes *)
+Theorem C08_linker_solve_span_default_start_outside :
+  forall (num : Type) (sub : num -> num -> num) (absf : num -> num) (ltb : num -> num -> bool) (zero : num)
+         (sev : sid -> hook num) (pre ebefore eafter post : lhook num) (L : Type) (locate : L -> locres)
+         (lg ld : nat) (span : list L) (end_ : option L) (sel : option (list sid)) (o : opts num) (s : lstate num),
+    min_iter o <= max_iter o -> span <> [] -> (length span <= lg)%nat ->
+    linker_solve_span_M num sub absf ltb zero sev pre ebefore eafter post L locate lg ld span None end_ sel o s
+    = (s, inl (LExn IndexError)).
+Proof. exact linker_solve_span_default_start_outside. Qed.
 
 (* one solve_t per position from `start` (default: position lags) to `end` (default: n - 1 - leads) inclusive, in
    span order; the triple returned pairs those positions with their labels and the solve_t flags *)
@@ -622,38 +679,39 @@ Theorem C08_single_model_linker_eq_model :
     check cd = [] ->                                         (* the linker adds no check variable of its own *)
     py_pos (length cs) t = Some p -> length ci = length cs ->
     py_pos (length ms) t = Some p -> length mi = length ms ->
-    min_iter o <= max_iter o -> 0 <= max_iter o ->           (* no such guard in the linker *)
-    feasible d (length ms) p = true ->                       (* no feasibility guard in the linker *)
-    offset o = 0 ->                                          (* ignored by the linker *)
+    forall (sel : option (list sid)),
+    (* what __init__ establishes for a linker over this one model: its lags / leads are the model's, same span length *)
+    lags cd = lags d -> leads cd = leads d -> length cs = length ms ->
+    (min_iter o <= max_iter o -> 0 <= max_iter o) ->
+    offset o = 0 ->                                          (* ignored by the linker: finding #8 *)
     (forall i, (1 <= i <= Z.to_nat (max_iter o))%nat ->      (* no evaluation raises (the model would wrap it in SolutionError) *)
        snd (evk num ev o t i (st_after num ev o t mv (i - 1))) = None) ->
-    (forall i, (i <= Z.to_nat (max_iter o))%nat ->           (* finite regime (the linker has no error policy) *)
+    (forall i, (i <= Z.to_nat (max_iter o))%nat ->           (* finite regime (the linker has no error policy: kept finding) *)
        all_finite num isfin (chkseq num zero ev d o t p (get_check num zero d mv p) mv i) = true) ->
     (forall i, (1 <= i <= Z.to_nat (max_iter o))%nat ->      (* evaluation independent of the warning filter in force *)
        sev id t (errors o) (catch_first o) i (st_after num ev o t mv (i - 1))
        = ev t (errors o) (catch_first o) i (st_after num ev o t mv (i - 1))) ->
-    forall sel, sel = None \/ sel = Some [id] ->
+    sel = None \/ sel = Some [id] ->
     let rm := solve_t_M num sub absf ltb isfin zero ev (id_hook num) (id_hook num) d o t (mkState mv ms mi ml) in
     let rl := linker_solve_t_M num sub absf ltb zero sev (id_lhook num) (id_lhook num) (id_lhook num) (id_lhook num) sel o t
                 (mkL (mkComp cd (mkState cv cs ci cl)) [(id, mkComp d (mkState mv ms mi ml))] lg) in
+    (* rejected by a guard: min_iter > max_iter (ValueError) or no room for the lags / leads at t (IndexError) — by BOTH *)
+    let rejected := (max_iter o <? min_iter o) || negb (feasible d (length ms) p) in
     snd rl = lout_of (snd rm) /\
     l_subs (fst rl) = [(id, mkComp d (mkState (vals_of (fst rm)) (status (fst rm)) (iters (fst rm)) ml))] /\
-    status (c_st (l_core (fst rl))) = upd p (nth p (status (fst rm)) Unsolved) cs /\
-    iters (c_st (l_core (fst rl))) = upd p (nth p (iters (fst rm)) 0) ci.
+    status (c_st (l_core (fst rl))) = (if rejected then cs else upd p (nth p (status (fst rm)) Unsolved) cs) /\
+    iters (c_st (l_core (fst rl))) = (if rejected then ci else upd p (nth p (iters (fst rm)) 0) ci) /\
+    (rejected = true ->
+       fst rl = mkL (mkComp cd (mkState cv cs ci cl)) [(id, mkComp d (mkState mv ms mi ml))] lg /\
+       fst rm = mkState mv ms mi ml /\
+       snd rm = Raise (if max_iter o <? min_iter o then ValueError else IndexError)).
 Proof. exact single_model_linker_eq_model. Qed.
 
-(* ... and FALSE outside those premises: BaseLinker.solve_t has no feasibility guard (1), no min_iter > max_iter guard (2)
-   and no error policy (3), all of which BaseModel.solve_t has — three kept findings of the last clause of C08 *)
+(* ... and still FALSE outside the finite regime: BaseLinker.solve_t has no error policy (kept finding twin|no-error-policy) *)
 Theorem C08_single_model_linker_eq_model_refuted :
-  (exists d o, feasible d 3 1 = false /\ min_iter o <= max_iter o /\ offset o = 0 /\
-               lx_mrun lx_scA d o = (lx_mA, Raise IndexError) /\ snd (lx_lrun lx_scA d o) = LRet true) /\
-  (exists o, max_iter o < min_iter o /\
-             lx_mrun lx_scA lx_dA o = (lx_mA, Raise ValueError) /\
-             snd (lx_lrun lx_scA lx_dA o) = LRaise (LExn NonConvergenceError) /\
-             map (fun ic => status (c_st (snd ic))) (l_subs (fst (lx_lrun lx_scA lx_dA o))) = [[Unsolved; Failed; Unsolved]]) /\
-  (exists sc o, errors o = ERaise /\
-                snd (lx_mrun sc lx_dA o) = Raise (SolutionError None) /\ status (fst (lx_mrun sc lx_dA o)) = [Unsolved; ErrorSt; Unsolved] /\
-                snd (lx_lrun sc lx_dA o) = LRet true).
+  exists sc o, errors o = ERaise /\ min_iter o <= max_iter o /\ offset o = 0 /\ feasible lx_dA 3 1 = true /\
+               snd (lx_mrun sc lx_dA o) = Raise (SolutionError None) /\ status (fst (lx_mrun sc lx_dA o)) = [Unsolved; ErrorSt; Unsolved] /\
+               snd (lx_lrun sc lx_dA o) = LRet true.
 Proof. exact single_model_linker_eq_model_refuted. Qed.
 
 Print Assumptions C08_solve_t_preserves_shape.
@@ -667,7 +725,12 @@ Print Assumptions C08_linker_converges_at_least_k.
 Print Assumptions C08_linker_fails_when_no_k.
 Print Assumptions C08_linker_status_stamped.
 Print Assumptions C08_linker_maxiter0.
-Print Assumptions C08_linker_min_gt_max_never_solved.
+Print Assumptions C08_linker_solve_t_min_gt_max_rejected.
+Print Assumptions C08_linker_solve_t_infeasible_rejected.
+Print Assumptions C08_linker_solve_t_infeasible_position_rejected.
+Print Assumptions C08_linker_guard_is_feasibility.
+Print Assumptions C08_guard_passed_fits_every_submodel.
+Print Assumptions lx_guard_hypotheses_satisfiable.
 Print Assumptions C08_linker_offset_ignored.
 Print Assumptions C08_linker_offset_seeds_refuted.
 Print Assumptions C08_linker_offset_out_of_span_accepted.
@@ -698,11 +761,13 @@ Print Assumptions C08_linker_solve_span_min_gt_max.
 Print Assumptions C08_linker_solve_span_empty.
 Print Assumptions C08_linker_solve_span_unknown_start.
 Print Assumptions C08_linker_solve_span_unknown_end.
+Print Assumptions C08_linker_solve_span_default_start_outside.
 Print Assumptions C08_linker_solve_span_eq_fold.
 Print Assumptions C08_linker_solve_span_outside_untouched.
 Print Assumptions C08_default_range_fits_every_submodel.
 Print Assumptions lx_hypotheses_satisfiable.
 Print Assumptions lx_single_hypotheses_satisfiable.
+Print Assumptions lx_single_constructed_premises.
 Print Assumptions lx_qualifies_at_4.
 Print Assumptions lx_user_raise.
 Print Assumptions lx_errors_hypotheses_satisfiable.
